@@ -166,19 +166,31 @@ def theorems_in(prop_file):
     return re.findall(r"^\s*(?:Theorem|Lemma|Example|Corollary)\s+([\w']+)", src, re.M)
 
 
+def property_files(pid):
+    """Properties/<pid>.v and Properties/<pid>_<part>.v, in project order."""
+    return [f for f in project_files() if re.match(r"Properties/%s(_\w+)?\.v$" % re.escape(pid), f)]
+
+
 def property_status(pid, files=None):
-    """Obligations of a property = the theorems of Properties/<pid>.v (and the files it depends on).
-    discharged = all of them iff the file compiled."""
+    """Obligations of a property = the theorems of its property files (which only restate lemmas of Proofs/).
+    discharged = all of them iff every file (hence everything it depends on) compiled."""
     b = build()
-    pf = f"Properties/{pid}.v"
-    if not os.path.exists(os.path.join(COQ, pf)):
-        return dict(exists=False, ok=False, theorems=[], axioms=[], error=f"{pf} missing")
-    ths = theorems_in(pf)
-    if pf in b["failed"] or b["hygiene"]:   # a failed translation makes its Generated file (and all dependents) fail
-        culprit = {f: e for f, e in b["failed"].items() if not f.startswith("Properties/") or f == pf}
+    pfs = property_files(pid)
+    if not pfs:
+        return dict(exists=False, ok=False, theorems=[], axioms=[], error=f"Properties/{pid}.v missing")
+    ths = [t for pf in pfs for t in theorems_in(pf)]
+    bad = [pf for pf in pfs if pf in b["failed"]]
+    if bad or b["hygiene"]:   # a failed translation makes its Generated file (and all dependents) fail
+        culprit = {f: e for f, e in b["failed"].items() if not f.startswith("Properties/") or f in pfs}
         return dict(exists=True, ok=False, theorems=ths, axioms=[], error=dict(failed=culprit, hygiene=b["hygiene"], translator=b["translator_errors"]))
-    a = assumptions_of(pf)
-    return dict(exists=True, ok=a["ok"], theorems=ths, axioms=a["axioms"], closed=a["closed"], error=None if a["ok"] else a["raw"])
+    axioms, closed, ok, raw = set(), 0, True, ""
+    for pf in pfs:
+        a = assumptions_of(pf)
+        axioms.update(a["axioms"])
+        closed += a["closed"]
+        ok = ok and a["ok"]
+        raw += a["raw"] if not a["ok"] else ""
+    return dict(exists=True, ok=ok, theorems=ths, axioms=sorted(axioms), closed=closed, error=None if ok else raw)
 
 
 def run_cases(name, body, timeout=1200):
